@@ -6,5 +6,6 @@ cd "$(dirname "$0")/.."
 mkdir -p .work/bin evidence replays
 go build -tags verif -o .work/bin/check.setup ./cmd/check
 scripts/build_instr.sh .work/bin/check-instr.setup
+go test -race -tags verif -count=1 -run NONE ./checks/c16/racepass/ >/dev/null 2>&1 || true   # warms the race-instrumented build used by C16's supplementary pass
 rm -f .work/bin/check.setup .work/bin/check-instr.setup
 echo setup ok
